@@ -29,6 +29,8 @@ pub enum V {
     Bool(bool),
     Rich(Vec<(String, bool)>),
     Formula(String, Option<String>),
+    /// text first, formula second: the formula keeps the text as its cached result, whatever it looks like
+    StrFormula(String, String),
 }
 
 impl V {
@@ -64,6 +66,10 @@ impl V {
                     c.set_formula_result_default(v.clone());
                 }
             }
+            V::StrFormula(t, f) => {
+                c.set_value_string(t.clone());
+                c.set_formula(f.clone());
+            }
         }
     }
     pub fn json(&self) -> Value {
@@ -74,6 +80,7 @@ impl V {
             V::Bool(b) => json!({"set_value_bool": b}),
             V::Rich(r) => json!({"set_rich_text": r}),
             V::Formula(f, c) => json!({"set_formula": f, "set_formula_result_default": c}),
+            V::StrFormula(t, f) => json!({"set_value_string": t, "then_set_formula": f}),
         }
     }
     pub fn tags(&self) -> Vec<String> {
@@ -112,6 +119,11 @@ impl V {
                 for (s, _) in r {
                     text_tags(s, &mut t);
                 }
+            }
+            V::StrFormula(tx, _) => {
+                t.push("formula".into());
+                t.push("f:text-then-formula".into());
+                text_tags(tx, &mut t);
             }
             V::Formula(f, c) => {
                 t.push("formula".into());
@@ -238,11 +250,14 @@ fn core_values() -> Vec<V> {
         v.push(V::Rich(vec![(t.to_string(), false)]));
         v.push(V::Rich(vec![(t.to_string(), true), ("a".into(), false)]));
     }
-    for (f, c) in [("1+1", Some("2")), ("1+1", None), ("A1", Some("a")), ("A1", Some("TRUE")), ("A1", Some("#N/A")), ("\"a\"&\"b\"", Some("ab")), ("1<2", Some("TRUE")), ("PI()", Some("3.141592653589793"))] {
+    for (f, c) in [("1+1", Some("2")), ("1+1", None), ("A1", Some("a")), ("A1", Some("TRUE")), ("A1", Some("#N/A")), ("\"a\"&\"b\"", Some("ab")), ("1<2", Some("TRUE")), ("PI()", Some("3.141592653589793")), ("IF(1>2,\"x\",\"\")", Some("")), ("A1&\"\"", Some(" "))] {
         v.push(V::Formula(f.to_string(), c.map(|s| s.to_string())));
     }
     for e in ["#DIV/0!", "#REF!"] {
         v.push(V::Auto(e.to_string()));
+    }
+    for t in ["", " ", "007", "abc"] {
+        v.push(V::StrFormula(t.to_string(), "IF(1>2,\"x\",\"\")".to_string()));
     }
     v
 }
